@@ -145,6 +145,10 @@ pub struct ProgGen<'g, 'r> {
     handover: Option<String>,
     /// long bodies: a helper made of one `asm` statement with a declared size, and that size
     pad_helper: Option<Func>,
+    /// hardware statements: inline helpers without parameters whose first statement is `load(hvN)` (index, hvN)
+    load_first: Vec<(usize, String)>,
+    /// the same as a dedicated helper placed before all functions (name, hvN)
+    line_helper: Option<(Func, String)>,
     /// helpers that contain a call to themselves
     self_callers: HashSet<usize>,
 }
@@ -157,7 +161,7 @@ fn is8(t: Ty) -> bool {
 
 impl<'g, 'r> ProgGen<'g, 'r> {
     pub fn new(g: &'g mut G<'r>, cfg: GenCfg) -> Self {
-        ProgGen { g, cfg, globals: vec![], helpers: vec![], name_ctr: 0, labels: vec![], handover: None, pad_helper: None, self_callers: HashSet::new() }
+        ProgGen { g, cfg, globals: vec![], helpers: vec![], name_ctr: 0, labels: vec![], handover: None, pad_helper: None, load_first: vec![], line_helper: None, self_callers: HashSet::new() }
     }
 
     fn label(&mut self, l: &'static str) {
@@ -872,7 +876,8 @@ impl<'g, 'r> ProgGen<'g, 'r> {
             5 => {
                 let c = self.condition(fc, depth - 1);
                 // both alternatives of the same signedness (the compiler insists)
-                let a = self.leaf_w(fc, want);
+                // (one alternative in five has a side effect of its own, which only takes place on its path)
+                let a = if self.g.chance(1, 5) && !fc.touched.contains("#call") { self.side_effect_expr(fc, want) } else { self.leaf_w(fc, want) };
                 let mut b = self.leaf_w(fc, want);
                 let sa = self.signed_of(fc, &a);
                 for _ in 0..6 {
@@ -882,7 +887,11 @@ impl<'g, 'r> ProgGen<'g, 'r> {
                     }
                     b = self.leaf_w(fc, want);
                 }
-                Expr::Ternary(Box::new(c), Box::new(a), Box::new(b))
+                if self.g.chance(1, 2) {
+                    Expr::Ternary(Box::new(c), Box::new(a), Box::new(b))
+                } else {
+                    Expr::Ternary(Box::new(c), Box::new(b), Box::new(a))
+                }
             }
             6 => {
                 let c = self.callable(fc, true);
@@ -1432,6 +1441,10 @@ impl<'g, 'r> ProgGen<'g, 'r> {
                 1 => Expr::bin(BinOp::Add, Expr::var(&name), Expr::lit(1)),
                 _ => Expr::bin(BinOp::Xor, Expr::var(&name), Expr::lit(2)),
             }
+        } else if name != "X" && name != "Y" && !fc.protected.contains(&name) && self.g.chance(1, 6) {
+            // the value before the step is compared with every case
+            self.label("switch-on-post-increment");
+            Expr::IncDec(self.g.chance(1, 2), false, LValue::Var(name.clone()))
         } else {
             Expr::var(&name)
         };
@@ -1486,6 +1499,21 @@ impl<'g, 'r> ProgGen<'g, 'r> {
                 *g.pick(&[0, 1, 11, 12, 40])
             }
         };
+        // a variable assigned right before the call of an inline function that starts by loading it explicitly:
+        // the explicit load is not the reload of a value the accumulator is known to hold
+        let lf: Vec<(usize, String)> = self.load_first.iter().filter(|(i, _)| fc.is_main || *i < fc.idx).cloned().collect();
+        let mut lf: Vec<(String, String)> = lf.into_iter().map(|(i, h)| (self.helpers[i].name.clone(), h)).collect();
+        if let Some((f, h)) = &self.line_helper {
+            lf.push((f.name.clone(), h.clone()));
+        }
+        if !lf.is_empty() && self.g.chance(1, 6) {
+            let (name, hvn) = self.g.pick(&lf).clone();
+            self.label("assign-then-inline-load");
+            let kk = self.g.range(0, 200) as i32;
+            fc.touched.insert("#call".into());
+            // (the variable is written by an explicit store: ordinary code never touches the watched objects)
+            return vec![Stmt::Load(Expr::lit(kk)), Stmt::Store(LValue::Var(hvn)), Stmt::Expr(Expr::Call(name, vec![]))];
+        }
         match self.g.below(19) {
             17 | 18 if ord.len() >= 2 => {
                 // an explicit load of a value the accumulator already holds, while the flags
@@ -1947,10 +1975,42 @@ impl<'g, 'r> ProgGen<'g, 'r> {
                 ];
             }
         }
-        let pick = self.g.below(if self.cfg.addr_low_byte { 53 } else { 50 });
+        let pick = self.g.below(if self.cfg.addr_low_byte { 56 } else { 53 });
         // (38..40 need cfg.addr_low_byte; the numbering of the other patterns is kept)
         let pick = if !self.cfg.addr_low_byte && pick >= 38 { pick + 3 } else { pick };
         match pick {
+            53 | 54 | 55 => {
+                // two paths that meet at a label, one of which ends with Y given back (its flags are those of
+                // Y), the value stored and tested right after the label
+                let big: Vec<(String, Ty, usize)> = arrs.iter().filter(|(_, _, n)| *n >= 2).cloned().collect();
+                if big.is_empty() || v8.len() < 3 {
+                    return vec![self.assign_stmt(fc)];
+                }
+                let (ar, _, n) = self.g.pick(&big).clone();
+                let names: Vec<String> = v8.iter().map(|x| x.0.clone()).filter(|x| *x != a && *x != b).collect();
+                if names.is_empty() {
+                    return vec![self.assign_stmt(fc)];
+                }
+                let c = self.g.pick(&names).clone();
+                let mask = (n.next_power_of_two() / 2).max(1) as i32 - 1;
+                let idx = if mask == 0 { Expr::lit(0) } else { Expr::bin(BinOp::And, Expr::var(&b), Expr::lit(mask)) };
+                let elem = Expr::Lv(LValue::Index(ar.clone(), Box::new(idx)));
+                let other = Expr::lit(*self.g.pick(&[0, 0, 1, 7]));
+                let t = if self.g.chance(2, 3) {
+                    Expr::Ternary(Box::new(Expr::var(&c)), Box::new(elem), Box::new(other))
+                } else {
+                    Expr::Ternary(Box::new(Expr::var(&c)), Box::new(other), Box::new(elem))
+                };
+                let cond = match self.g.below(3) {
+                    0 => Expr::var(&a),
+                    1 => Expr::bin(BinOp::Ne, Expr::var(&a), Expr::lit(0)),
+                    _ => Expr::bin(BinOp::Eq, Expr::var(&a), Expr::lit(0)),
+                };
+                vec![
+                    Stmt::Expr(Expr::assign(LValue::Var(a.clone()), t)),
+                    Stmt::If(cond, Box::new(Stmt::Expr(Expr::assign(LValue::Var(c.clone()), Expr::lit(k + 1)))), None),
+                ]
+            }
             50 | 51 | 52 => {
                 // a 16-bit element stepped through an index register and tested right away: the flags left by
                 // the step are those of one of its bytes only
@@ -2749,6 +2809,18 @@ impl<'g, 'r> ProgGen<'g, 'r> {
             body.push(Stmt::Expr(s1));
             self.handover = Some(o);
         }
+        if self.cfg.hw && inline && ret.is_none() && params.is_empty() && self.g.chance(1, 2) {
+            let hvn = format!("hv{}", 1 + self.g.below(3));
+            let at = body.iter().position(|s| !matches!(s, Stmt::Decl(_))).unwrap_or(body.len());
+            body.insert(at, Stmt::Load(Expr::var(&hvn)));
+            body.insert(at + 1, Stmt::Store(LValue::Var(format!("hv{}", 1 + self.g.below(3)))));
+            self.load_first.push((idx, hvn));
+        } else if inline && ret.is_none() && self.g.chance(1, 10) {
+            // an inline function that generates no code at all (a hook compiled out): its calls still
+            // evaluate the arguments and still count as calls
+            body.clear();
+            self.label("empty-inline-function");
+        }
         Func { name, ret, params, body, inline, interrupt: false, proto: false, bank }
     }
 
@@ -2768,6 +2840,14 @@ impl<'g, 'r> ProgGen<'g, 'r> {
                 bank: 0,
             });
             self.label("sized-asm-helper");
+        }
+        if self.cfg.hw && self.g.chance(1, 3) {
+            let hvn = format!("hv{}", 1 + self.g.below(3));
+            let second = if self.g.chance(1, 2) { Stmt::Store(LValue::Var(format!("hv{}", 1 + self.g.below(3)))) } else { Stmt::Strobe(LValue::Var(format!("HR{}", 1 + self.g.below(2)))) };
+            self.line_helper = Some((
+                Func { name: "zline".into(), ret: None, params: vec![], body: vec![Stmt::Load(Expr::var(&hvn)), second], inline: self.g.chance(4, 5), interrupt: false, proto: false, bank: 0 },
+                hvn,
+            ));
         }
         let nh = if self.cfg.helpers_must_exist {
             1 + self.g.below(self.cfg.max_helpers.max(1))
@@ -2810,6 +2890,9 @@ impl<'g, 'r> ProgGen<'g, 'r> {
         let mut funcs = self.helpers.clone();
         if let Some(p) = &self.pad_helper {
             funcs.insert(0, p.clone());
+        }
+        if let Some((f, _)) = &self.line_helper {
+            funcs.insert(0, f.clone());
         }
         funcs.push(main);
         (Program { globals: self.globals.clone(), funcs }, self.labels.clone())
